@@ -25,7 +25,7 @@ def is_union(op):
     return op.startswith("un ") or op.startswith("tun ")
 
 
-def nontrivial(header, ops, obs):
+def nontrivial(stream, header, ops, obs):
     merges = 0
     for o, v in zip(ops, obs):
         if is_union(o) and v in ("b true", "r ok true"):
@@ -39,7 +39,7 @@ def norm(l):
     return " ".join(l.split())
 
 
-def compare(header, ops, impl, model):
+def compare(stream, header, ops, impl, model):
     for k in range(max(len(impl), len(model), len(ops))):
         a = norm(impl[k]) if k < len(impl) else "<missing>"
         b = norm(model[k]) if k < len(model) else "<missing>"
@@ -48,7 +48,7 @@ def compare(header, ops, impl, model):
     return None
 
 
-def oracle(header, ops, obs):
+def oracle(stream, header, ops, obs):
     """Specification oracle, independent of the Coq model and of which member represents a class:
     a naive partition (list of labels) driven by the operations; every observation must be an
     answer the property allows."""
@@ -149,7 +149,7 @@ def oracle(header, ops, obs):
     return None
 
 
-def plant(header, ops, obs):
+def plant(stream, header, ops, obs):
     """flip one equiv answer"""
     for k, (o, v) in enumerate(zip(ops, obs)):
         if o.startswith("eq ") and v.startswith("b "):
@@ -159,6 +159,6 @@ def plant(header, ops, obs):
     return None
 
 
-def shrink(header, ops, obs, failure):
+def shrink(stream, header, ops, obs, failure):
     k = failure.get("op_index")
     return ops[:k + 1] if isinstance(k, int) else ops
